@@ -29,6 +29,9 @@ Definition in_i64 (z : Z) : bool := (i64_min <=? z) && (z <=? i64_max).
 Definition in_i32 (z : Z) : bool := (i32_min <=? z) && (z <=? i32_max).
 Definition chk64 (z : Z) : res Z := if in_i64 z then Ok z else Panic Overflow.
 Definition chk32 (z : Z) : res Z := if in_i32 z then Ok z else Panic Overflow.
+(* a subtraction: the debug-build message is "attempt to subtract with overflow" (panic kind Underflow) *)
+Definition chk64s (z : Z) : res Z := if in_i64 z then Ok z else Panic Underflow.
+Definition chk32s (z : Z) : res Z := if in_i32 z then Ok z else Panic Underflow.
 Definition wrap_u32 (z : Z) : Z := z mod 4294967296.                   (* `as u32` *)
 Definition wrap_i32 (z : Z) : Z := (z + 2147483648) mod 4294967296 - 2147483648.   (* `as i32` *)
 
@@ -191,7 +194,7 @@ Definition td_add (a b : tdelta) : res tdelta :=
 
 Definition td_sub (a b : tdelta) : res tdelta :=
   if negb (td_is_nat a) && negb (td_is_nat b) then
-    do m <- chk32 (td_months a - td_months b);
+    do m <- chk32s (td_months a - td_months b);
     do n <- dur_chk (td_ns a - td_ns b);
     Ok (mktd m n)
   else Ok td_nat.
@@ -364,7 +367,7 @@ Definition time_sub (t : Z) (d : tdelta) : res Z :=
   if negb (is_nat t) && negb (td_is_nat d) then
     if negb (td_months d =? 0) then Panic OtherPanic
     else match num_ns (td_ns d) with
-         | Some n => chk64 (t - n)
+         | Some n => chk64s (t - n)
          | None => Ok NaT
          end
   else Ok NaT.
